@@ -684,7 +684,7 @@ func runC13(p c13Plan, c *stats.Case) error {
 	}
 	// classes
 	if honest {
-		c.NT("honest:" + kindName)
+		c.Class("honest:" + kindName) // non-trivial only with an extension node, a leaf target or an inline child in the proof (marked below)
 		if refErr != nil {
 			return fmt.Errorf("harness bug: honest offer rejected by the reference: %v", refErr)
 		}
@@ -702,7 +702,18 @@ func runC13(p c13Plan, c *stats.Case) error {
 			}
 		}
 	} else if refErr != nil {
-		c.NT("ref-rejects:" + kindName)
+		// rejected by shape alone (no node at all) is only counted; everything else reaches a hash-link comparison
+		shapeOnly := false
+		for _, m := range p.Muts {
+			if m.Kind == "empty" || m.Kind == "acct-empty" {
+				shapeOnly = true
+			}
+		}
+		if shapeOnly {
+			c.Class("ref-rejects:" + kindName)
+		} else {
+			c.NT("ref-rejects:" + kindName)
+		}
 	} else {
 		c.NT("mutated-but-valid:" + kindName)
 	}
@@ -717,13 +728,13 @@ func runC13(p c13Plan, c *stats.Case) error {
 						if leaf {
 							c.Class("proof-has-leaf")
 						} else {
-							c.Class("proof-has-extension")
+							c.NT("proof-has-extension")
 						}
 					}
 				} else if err == nil && len(items) == 17 {
 					for _, ch := range items[:16] {
 						if ch.IsList {
-							c.Class("proof-has-inline-child")
+							c.NT("proof-has-inline-child")
 						}
 					}
 					if len(items[16].Payload) > 0 {
@@ -734,7 +745,7 @@ func runC13(p c13Plan, c *stats.Case) error {
 		}
 		if honest && len(w.offer.Proof) > 0 {
 			if _, err := leafValueOf(w.offer.Proof[len(w.offer.Proof)-1]); err == nil {
-				c.Class("target-is-leaf")
+				c.NT("target-is-leaf")
 			}
 			if len(w.offer.Proof) == 1 {
 				c.Class("target-is-root")
